@@ -69,7 +69,11 @@ class CodeGenFuncProtocol(Protocol):
 
 def code_gen(ast_nodes: list[AstNode], resolver: Resolver) -> GenNodes:
     macro_definitions: MacroDefinitions = {}
-    return _code_gen(ast_nodes, resolver, macro_definitions)
+    resolver.generating_code = True
+    try:
+        return _code_gen(ast_nodes, resolver, macro_definitions)
+    finally:
+        resolver.generating_code = False
 
 
 def _get_file_info(node: AstNode) -> Token:
@@ -260,6 +264,7 @@ def generate_label(
     macro_definitions: MacroDefinitions,
     file_info: Token,
 ) -> GenNodes:
+    resolver.current_scope.pending_labels.add(node.label)
     return [LabelNode(node.label, resolver)]
 
 
